@@ -349,7 +349,12 @@ class Canon(ast.NodeTransformer):
         return out
 
     def generic_visit(self, node):
+        # only statements that are direct children of a class body are "class attributes" (the documented, syntactic test)
+        cl = getattr(self, 'class_level', False)
+        if isinstance(node, ast.stmt):
+            self.class_level = False
         node = super().generic_visit(node)
+        self.class_level = cl
         for f in ('body', 'orelse', 'finalbody'):
             v = getattr(node, f, None)
             if isinstance(v, list) and (not v or isinstance(v[0], ast.stmt)):
@@ -385,10 +390,10 @@ class Canon(ast.NodeTransformer):
         return node
 
     def visit_FunctionDef(self, node):
-        cl = getattr(self, 'class_level', False)
-        self.class_level = False
+        old = getattr(self, 'in_protected', False)
+        self.in_protected = False
         node = self.generic_visit(node)
-        self.class_level = cl
+        self.in_protected = old
         if self.O.get('ann_ret'):
             node.returns = None
         return node
@@ -411,9 +416,7 @@ class Canon(ast.NodeTransformer):
 
     def visit_AnnAssign(self, node):
         cl = getattr(self, 'class_level', False)
-        self.class_level = False
         node = self.generic_visit(node)
-        self.class_level = cl
         if cl:
             if not self.O.get('ann_cls') or getattr(self, 'in_protected', False):
                 return node
